@@ -1151,3 +1151,326 @@ Proof.
   - apply Hflush. reflexivity.
   - cbn [fst snd]. unfold resp_np, PInv. cbn [r_exec r_flush pw_store f_np is_spanic]. auto.
 Qed.
+
+(* ---- histories: every request has its own fuel -------------------------------------------------- *)
+Fixpoint hist_long (rs : rsrc) (c : config) (e : engine) (h : list (nat * bytes)) : engine * list response :=
+  match h with
+  | [] => (e, [])
+  | (fuel, input) :: r =>
+    let '(e', resp) := request_long fuel rs c e input in
+    let '(e'', resps) := hist_long rs c e' r in (e'', resp :: resps)
+  end.
+Fixpoint hist_pers (rs : rsrc) (c : config) (p : pworld) (h : list (nat * bytes)) : pworld * list response :=
+  match h with
+  | [] => (p, [])
+  | (fuel, input) :: r =>
+    let '(p', resp) := request_persisted fuel rs c p input in
+    let '(p'', resps) := hist_pers rs c p' r in (p'', resp :: resps)
+  end.
+
+Lemma FirstOk_none bits cap k c e : c_first c = None -> FirstOk bits cap k c e.
+Proof. intros H. unfold FirstOk. rewrite H. exact I. Qed.
+
+Lemma hist_long_safe bits cap k rs c :
+  rs_wf bits cap k rs -> wf_sym (cfg_root c) -> c_first c = None ->
+  forall h e, EInv bits cap k e ->
+  Forall resp_np (snd (hist_long rs c e h)) /\ EInv bits cap k (fst (hist_long rs c e h)).
+Proof.
+  intros Hrs Hroot Hf. induction h as [|[fuel input] h IH]; intros e HE; cbn [hist_long].
+  - cbn [fst snd]. split; [constructor|exact HE].
+  - pose proof (request_long_safe bits cap k fuel rs c e input Hrs Hroot HE (FirstOk_none _ _ _ _ _ Hf)) as [R1 R2].
+    destruct (request_long fuel rs c e input) as [e' resp]. cbn [fst snd] in R1, R2.
+    destruct (IH e' R2) as [I1 I2]. destruct (hist_long rs c e' h) as [e'' resps]. cbn [fst snd] in *.
+    split; [constructor; assumption|exact I2].
+Qed.
+
+Lemma hist_pers_safe k rs c :
+  rs_wf (cfg_bits c) (c_cachesize c) k rs -> cfg_ok c -> c_first c = None ->
+  forall h p, PInv (cfg_bits c) (c_cachesize c) k p ->
+  Forall resp_np (snd (hist_pers rs c p h)) /\ PInv (cfg_bits c) (c_cachesize c) k (fst (hist_pers rs c p h)).
+Proof.
+  intros Hrs Hc Hf. induction h as [|[fuel input] h IH]; intros p HP; cbn [hist_pers].
+  - cbn [fst snd]. split; [constructor|exact HP].
+  - pose proof (request_persisted_safe k fuel rs c p input Hrs Hc HP (FirstOk_none _ _ _ _ _ Hf)) as [R1 R2].
+    destruct (request_persisted fuel rs c p input) as [p' resp]. cbn [fst snd] in R1, R2.
+    destruct (IH p' R2) as [I1 I2]. destruct (hist_pers rs c p' h) as [p'' resps]. cbn [fst snd] in *.
+    split; [constructor; assumption|exact I2].
+Qed.
+
+(* ================================================================================== *)
+(* Part F — decidable well-formedness (corr/EngineMon.v) implies rs_wf                 *)
+(* ================================================================================== *)
+From Vise Require Import CorrBase EngineCorr EngineMon.
+
+Lemma alookup_In_pair {V} k (l : list (bytes * V)) v : alookup k l = Some v -> In (k, v) l.
+Proof.
+  induction l as [|[k' v'] l IH]; cbn [alookup]; [discriminate|].
+  destruct (bytes_eqb k k') eqn:E.
+  - intros H. injection H as ->. apply bytes_eqb_eq in E. subst k'. left. reflexivity.
+  - intros H. right. apply IH. exact H.
+Qed.
+
+(* entry functions' values are far from the uint32 wrap of the cache usage counter *)
+Definition vals_small (cap : N) (a : app) : bool :=
+  forallb (fun f => forallb (fun fr => len (fr_content fr) + INPUT_LIMIT + cap <? 4294967296) (snd f)) (a_funcs a).
+
+Lemma instr_wf_iok a bits self i : instr_wf a bits self i = true -> iok bits false i.
+Proof.
+  destruct i; cbn [instr_wf iok]; try (intros; exact I); try discriminate.
+  - intros H. apply andb_true_iff in H. destruct H as [_ H]. apply N.ltb_lt. exact H.
+  - intros H. split; [apply N.ltb_lt; exact H|reflexivity].
+Qed.
+
+Definition is_croak (i : instr) : bool := match i with ICroak _ _ => true | _ => false end.
+Lemma iok_no_croak bits i : iok bits false i -> is_croak i = false -> iok bits true i.
+Proof. destruct i; cbn [iok is_croak]; auto. discriminate. Qed.
+
+Lemma fres_wf_ok bits cap fr : fres_wf bits fr = true -> fr_ok bits cap false fr.
+Proof.
+  unfold fres_wf, fr_ok. intros H. apply andb_true_iff in H. destruct H as [H1 H2].
+  rewrite forallb_forall in H1, H2.
+  split; [apply Forall_forall; intros x Hx; apply N.ltb_lt; apply H1; exact Hx|].
+  split; [apply Forall_forall; intros x Hx; apply N.ltb_lt; apply H2; exact Hx|discriminate].
+Qed.
+
+Lemma wf_app_node a c sym code :
+  wf_app_b a c = true -> alookup sym (a_code a) = Some code ->
+  exists p, parse_all code = Ok p /\ node_instrs a sym = p /\ Forall (iok (cfg_bits c) false) p.
+Proof.
+  intros Hwf Hl. unfold wf_app_b in Hwf. cbv zeta in Hwf.
+  repeat (apply andb_true_iff in Hwf; destruct Hwf as [Hwf ?]).
+  match goal with H : forallb _ (a_code a) = true |- _ => rename H into Hnodes end.
+  rewrite forallb_forall in Hnodes. specialize (Hnodes (sym, code) (alookup_In_pair _ _ _ Hl)). cbn [fst snd] in Hnodes.
+  repeat (apply andb_true_iff in Hnodes; destruct Hnodes as [Hnodes ?]).
+  unfold decodes in Hnodes. destruct code as [|x code']; [discriminate|].
+  destruct (parse_all (x :: code')) as [p|e|n] eqn:Ep; try discriminate.
+  exists p. split; [reflexivity|].
+  assert (En : node_instrs a sym = p) by (unfold node_instrs; rewrite Hl, Ep; reflexivity).
+  split; [exact En|]. rewrite En in *.
+  match goal with H : forallb (instr_wf _ _ _) p = true |- _ => rename H into Hi end.
+  rewrite forallb_forall in Hi. apply Forall_forall. intros i Hin. eapply instr_wf_iok. apply Hi. exact Hin.
+Qed.
+
+Lemma wf_app_rs_wf a c : wf_app_b a c = true -> rs_wf (cfg_bits c) (c_cachesize c) false (app_rsrc a).
+Proof.
+  intros Hwf. constructor; cbn [app_rsrc rs_code rs_tpl rs_menu rs_func].
+  - intros sym. destruct (alookup sym (a_code a)) as [code|] eqn:El; [|exact I].
+    destruct (wf_app_node a c sym code Hwf El) as (p & Hp & _ & HF). eapply code_ok_of_parse; eassumption.
+  - intros l sym. destruct (lookup_lang (a_tpl a) sym l); reflexivity.
+  - intros l t. destruct (lookup_lang (a_menu a) (t ++ menu_suffix) l); reflexivity.
+  - intros sym script Hl. unfold wf_app_b in Hwf. cbv zeta in Hwf.
+    repeat (apply andb_true_iff in Hwf; destruct Hwf as [Hwf ?]).
+    match goal with H : forallb _ (a_funcs a) = true |- _ => rename H into Hfs end.
+    rewrite forallb_forall in Hfs. specialize (Hfs (sym, script) (alookup_In_pair _ _ _ Hl)). cbn [snd] in Hfs.
+    rewrite forallb_forall in Hfs. apply Forall_forall. intros fr Hin. apply fres_wf_ok. apply Hfs. exact Hin.
+Qed.
+
+(* level true: additionally no CROAK anywhere (has_croak, the guard of K-C08-croak) and small values *)
+Lemma wf_app_rs_wf_consistent a c :
+  wf_app_b a c = true -> has_croak a = false -> vals_small (c_cachesize c) a = true ->
+  rs_wf (cfg_bits c) (c_cachesize c) true (app_rsrc a).
+Proof.
+  intros Hwf Hnc Hsm. pose proof (wf_app_rs_wf a c Hwf) as H0. constructor; cbn [app_rsrc rs_code rs_tpl rs_menu rs_func].
+  - intros sym. destruct (alookup sym (a_code a)) as [code|] eqn:El; [|exact I].
+    destruct (wf_app_node a c sym code Hwf El) as (p & Hp & En & HF).
+    eapply code_ok_of_parse; [exact Hp|].
+    unfold has_croak in Hnc.
+    assert (Hno : existsb is_croak (node_instrs a sym) = false).
+    { destruct (existsb is_croak (node_instrs a sym)) eqn:E; [|reflexivity].
+      assert (Hex : existsb (fun nc => existsb (fun i => match i with ICroak _ _ => true | _ => false end) (node_instrs a (fst nc))) (a_code a) = true).
+      { apply existsb_exists. exists (sym, code). split; [apply alookup_In_pair; exact El|exact E]. }
+      congruence. }
+    rewrite En in Hno. rewrite Forall_forall in HF. apply Forall_forall. intros i Hin.
+    apply iok_no_croak; [apply HF; exact Hin|].
+    destruct (is_croak i) eqn:E; [|reflexivity].
+    assert (existsb is_croak p = true) by (apply existsb_exists; exists i; auto). congruence.
+  - apply (rw_tpl _ _ _ _ H0).
+  - apply (rw_menu _ _ _ _ H0).
+  - intros sym script Hl. pose proof (rw_func _ _ _ _ H0 sym script Hl) as HF.
+    unfold vals_small in Hsm. rewrite forallb_forall in Hsm.
+    specialize (Hsm (sym, script) (alookup_In_pair _ _ _ Hl)). cbn [snd] in Hsm. rewrite forallb_forall in Hsm.
+    rewrite Forall_forall in HF. apply Forall_forall. intros fr Hin. destruct (HF fr Hin) as (A1 & A2 & _).
+    split; [exact A1|]. split; [exact A2|]. intros _. apply N.ltb_lt. apply Hsm. exact Hin.
+Qed.
+
+(* ================================================================================== *)
+(* Final forms (props/C08safe.v)                                                       *)
+(* ================================================================================== *)
+
+Lemma run_no_panic bits cap k rs sep fuel lang b v v' b' s :
+  rs_wf bits cap k rs -> VInv bits cap k v -> cok bits k b ->
+  run fuel rs sep lang b v = (v', b', s) ->
+  (forall n, s <> SPanic n) /\ VInv bits cap k v' /\ cok bits k b'.
+Proof.
+  intros Hrs HV Hb H. pose proof (run_safe bits cap k rs sep Hrs fuel lang b v HV Hb) as (R1 & R2 & R3).
+  rewrite H in R1, R2, R3. cbn [fst snd] in *. split; [|auto]. intros n ->. discriminate.
+Qed.
+
+(* SFuel is not a panic: it is the model's "out of fuel", a separate status *)
+Lemma fuel_not_panic : forall n, SFuel <> SPanic n.
+Proof. discriminate. Qed.
+
+Lemma vm_render_no_panic bits cap k rs sep fuel lang v v' r :
+  rs_wf bits cap k rs -> VInv bits cap k v ->
+  vm_render fuel rs sep lang v = (v', r) -> (forall n, r <> RRPanic n) /\ VInv bits cap k v'.
+Proof.
+  intros Hrs HV H. pose proof (vm_render_safe bits cap k rs sep fuel lang v Hrs HV) as [R1 R2].
+  rewrite H in R1, R2. cbn [fst snd] in *. split; [|exact R2]. intros n ->. exact R1.
+Qed.
+
+Definition resp_no_panic (r : response) : Prop :=
+  (forall n, r_exec r <> SPanic n) /\ (forall n, r_flush r <> FPanic n).
+Lemma resp_np_no_panic r : resp_np r -> resp_no_panic r.
+Proof.
+  intros [H1 H2]. split; intros n E; rewrite E in *; [discriminate|contradiction].
+Qed.
+
+(* the consistency half *)
+Definition session_consistent (st : state) (ca : cache) : Prop :=
+  cache_levels ca = len (s_path st) + 1 /\ CInv ca.
+Lemma SC_consistent bits cap st ca : SC bits cap true st ca -> session_consistent st ca.
+Proof. intros (_ & _ & _ & _ & Hk). destruct (Hk eq_refl) as (K1 & K2 & _). split; assumption. Qed.
+
+(* one request, any engine state satisfying the invariant, both drivers *)
+Lemma request_no_panic_long a c k fuel e input :
+  wf_app_b a c = true -> cfg_okb c = true ->
+  (k = true -> has_croak a = false /\ vals_small (c_cachesize c) a = true) ->
+  EInv (cfg_bits c) (c_cachesize c) k e -> FirstOk (cfg_bits c) (c_cachesize c) k c e ->
+  resp_no_panic (snd (request_long fuel (app_rsrc a) c e input))
+  /\ EInv (cfg_bits c) (c_cachesize c) k (fst (request_long fuel (app_rsrc a) c e input)).
+Proof.
+  intros Hwf Hc Hk HE HF. apply cfg_okb_sound in Hc.
+  assert (Hrs : rs_wf (cfg_bits c) (c_cachesize c) k (app_rsrc a)).
+  { destruct k; [destruct (Hk eq_refl); apply wf_app_rs_wf_consistent; assumption|apply wf_app_rs_wf; assumption]. }
+  destruct (request_long_safe _ _ k fuel (app_rsrc a) c e input Hrs (proj1 Hc) HE HF) as [R1 R2].
+  split; [apply resp_np_no_panic; exact R1|exact R2].
+Qed.
+
+Lemma request_no_panic_pers a c k fuel p input :
+  wf_app_b a c = true -> cfg_okb c = true ->
+  (k = true -> has_croak a = false /\ vals_small (c_cachesize c) a = true) ->
+  PInv (cfg_bits c) (c_cachesize c) k p ->
+  FirstOk (cfg_bits c) (c_cachesize c) k c (new_engine c (pw_store p) (pw_w p) (pw_log p)) ->
+  resp_no_panic (snd (request_persisted fuel (app_rsrc a) c p input))
+  /\ PInv (cfg_bits c) (c_cachesize c) k (fst (request_persisted fuel (app_rsrc a) c p input)).
+Proof.
+  intros Hwf Hc Hk HP HF. apply cfg_okb_sound in Hc.
+  assert (Hrs : rs_wf (cfg_bits c) (c_cachesize c) k (app_rsrc a)).
+  { destruct k; [destruct (Hk eq_refl); apply wf_app_rs_wf_consistent; assumption|apply wf_app_rs_wf; assumption]. }
+  destruct (request_persisted_safe k fuel (app_rsrc a) c p input Hrs Hc HP HF) as [R1 R2].
+  split; [apply resp_np_no_panic; exact R1|exact R2].
+Qed.
+
+(* all histories from a new session, both drivers; guard: no entry function (see the refutations) *)
+Lemma history_no_panic a c w lg h :
+  wf_app_b a c = true -> cfg_okb c = true -> c_first c = None ->
+  Forall resp_no_panic (snd (hist_long (app_rsrc a) c (new_engine c None w lg) h))
+  /\ Forall resp_no_panic (snd (hist_pers (app_rsrc a) c (mkPw None w lg false) h)).
+Proof.
+  intros Hwf Hc Hf. apply cfg_okb_sound in Hc. pose proof (wf_app_rs_wf a c Hwf) as Hrs.
+  split.
+  - destruct (hist_long_safe _ _ false (app_rsrc a) c Hrs (proj1 Hc) Hf h (new_engine c None w lg)
+               (new_engine_EInv false c None w lg Hc I)) as [H1 _].
+    eapply Forall_impl; [|exact H1]. intros r. apply resp_np_no_panic.
+  - destruct (hist_pers_safe false (app_rsrc a) c Hrs Hc Hf h (mkPw None w lg false) I) as [H1 _].
+    eapply Forall_impl; [|exact H1]. intros r. apply resp_np_no_panic.
+Qed.
+
+(* consistency after every history: guard additionally excludes CROAK (K-C08-croak) and values
+   within 4 GiB of the usage counter's wrap *)
+Lemma history_consistent_partial a c w lg h :
+  wf_app_b a c = true -> cfg_okb c = true -> c_first c = None ->
+  has_croak a = false -> vals_small (c_cachesize c) a = true ->
+  (let e := fst (hist_long (app_rsrc a) c (new_engine c None w lg) h) in
+   session_consistent (v_st (e_v e)) (v_ca (e_v e)))
+  /\ match pw_store (fst (hist_pers (app_rsrc a) c (mkPw None w lg false) h)) with
+     | Some (st, ca) => session_consistent st ca
+     | None => True
+     end.
+Proof.
+  intros Hwf Hc Hf Hnc Hsm. apply cfg_okb_sound in Hc.
+  pose proof (wf_app_rs_wf_consistent a c Hwf Hnc Hsm) as Hrs.
+  split.
+  - destruct (hist_long_safe _ _ true (app_rsrc a) c Hrs (proj1 Hc) Hf h (new_engine c None w lg)
+               (new_engine_EInv true c None w lg Hc I)) as [_ H2].
+    cbv zeta. eapply SC_consistent. exact H2.
+  - destruct (hist_pers_safe true (app_rsrc a) c Hrs Hc Hf h (mkPw None w lg false) I) as [_ H2].
+    unfold PInv, snap_ok in H2. destruct (pw_store _) as [[st ca]|]; [|exact I]. eapply SC_consistent. exact H2.
+Qed.
+
+(* ================================================================================== *)
+(* Part G — refutation witnesses                                                       *)
+(* ================================================================================== *)
+
+(* K-C08-croak: root moves to foo, foo's "CROAK 8 0" fires (flag 8 is not set): the cache is
+   reset to one scope, the navigation stack keeps both nodes *)
+Definition wit_croak_app : app :=
+  mkApp [(s2b "root", encode (IMove (s2b "foo")));
+         (s2b "foo", encode_prog [ICroak 8 false; IHalt]);
+         (catch_sym, encode IHalt)] [] [] [].
+Definition wit_croak_cfg : config := mkCfg 0 [] 1 0 [] [] false None.
+
+Lemma consistent_refuted_croak :
+  wf_app_b wit_croak_app wit_croak_cfg = true /\ cfg_okb wit_croak_cfg = true
+  /\ c_first wit_croak_cfg = None /\ vals_small (c_cachesize wit_croak_cfg) wit_croak_app = true
+  /\ has_croak wit_croak_app = true
+  /\ (let e := fst (hist_long (app_rsrc wit_croak_app) wit_croak_cfg (new_engine wit_croak_cfg None [] []) [(100%nat, [])]) in
+      cache_levels (v_ca (e_v e)) = 1 /\ len (s_path (v_st (e_v e))) = 2
+      /\ cache_levels (v_ca (e_v e)) <> len (s_path (v_st (e_v e))) + 1)
+  /\ match pw_store (fst (hist_pers (app_rsrc wit_croak_app) wit_croak_cfg (mkPw None [] [] false) [(100%nat, [])])) with
+     | Some (st, ca) => cache_levels ca <> len (s_path st) + 1
+     | None => False
+     end.
+Proof. vm_compute. repeat split; discriminate. Qed.
+
+(* NEW (K-C08-first-depth): with an entry function (WithFirst) every request of persisted
+   operation runs State.Down("_first") on the stored position.  applyTarget lets the stack grow
+   to MaxLevel + 1 = 129 nodes, State.Down panics beyond MaxLevel nodes: a session 129 levels
+   deep crashes on its next request. *)
+Definition chain_name (k : N) : bytes := [110; 48 + k / 100; 48 + (k / 10) mod 10; 48 + k mod 10].
+Fixpoint chain_nodes (n : nat) (k : N) : list (bytes * bytes) :=
+  match n with
+  | O => [(chain_name k, encode_prog [IHalt; IHalt])]
+  | S n' => (chain_name k, encode (IMove (chain_name (k + 1)))) :: chain_nodes n' (k + 1)
+  end.
+Definition wit_deep_app : app :=
+  mkApp ((s2b "root", encode (IMove (chain_name 1))) :: (catch_sym, encode IHalt) :: chain_nodes 127 1) [] [] [].
+Definition wit_first_ok : fres := mkFres (s2b "x") false 0 [] [] false.
+Definition wit_deep_cfg : config := mkCfg 0 [] 0 0 [] [] false (Some [wit_first_ok]).
+
+Lemma no_panic_refuted_first_depth :
+  wf_app_b wit_deep_app wit_deep_cfg = true /\ cfg_okb wit_deep_cfg = true
+  /\ map (fun r => (r_exec r, r_flush r))
+         (snd (hist_pers (app_rsrc wit_deep_app) wit_deep_cfg (mkPw None [] [] false) [(3000%nat, []); (3000%nat, s2b "1")]))
+     = [(SOk, FErr ENotFound); (SPanic 23, FPanic 23)].
+Proof. vm_compute. repeat split. Qed.
+
+(* NEW (K-C08-first-fail): a failing entry function sends its private VM to "_catch"; runFirst's
+   single deferred Up leaves "_first" on the stack of the engine, which is not initialised.  The
+   next Exec on the same (long-lived) engine calls State.Down("_first") again: "down into same
+   node" panic. *)
+Definition wit_first_fail : fres := mkFres [] false 1 [] [] true.
+Definition wit_fail_cfg : config := mkCfg 0 [] 0 0 [] [] false (Some [wit_first_fail]).
+Definition wit_fail_app : app := mkApp [(s2b "root", encode IHalt); (catch_sym, encode IHalt)] [] [] [].
+
+Lemma no_panic_refuted_first_fail :
+  wf_app_b wit_fail_app wit_fail_cfg = true /\ cfg_okb wit_fail_cfg = true
+  /\ map (fun r => (r_exec r, r_flush r))
+         (snd (hist_long (app_rsrc wit_fail_app) wit_fail_cfg (new_engine wit_fail_cfg None [] []) [(100%nat, []); (100%nat, [])]))
+     = [(SOk, FOk); (SPanic 24, FPanic 24)].
+Proof. vm_compute. repeat split. Qed.
+
+(* NEW (K-C08-flagcount): state.toByteSize returns a uint8: with more than 2032 client flags
+   the flag field is SHORTER than BitSize says (FlagCount 4000: BitSize 4008, 245 bytes), and a
+   flag the range check accepts indexes past the field.  cfg_okb excludes it. *)
+Definition wit_flags_app : app :=
+  mkApp [(s2b "root", encode_prog [ICatch catch_sym 2000 true; IHalt]); (catch_sym, encode IHalt)] [] [] [].
+Definition wit_flags_cfg : config := mkCfg 0 [] 4000 0 [] [] false None.
+
+Lemma no_panic_refuted_flagcount :
+  wf_app_b wit_flags_app wit_flags_cfg = true /\ cfg_okb wit_flags_cfg = false
+  /\ c_first wit_flags_cfg = None
+  /\ map (fun r => (r_exec r, r_flush r))
+         (snd (hist_long (app_rsrc wit_flags_app) wit_flags_cfg (new_engine wit_flags_cfg None [] []) [(100%nat, [])]))
+     = [(SPanic 20, FPanic 20)].
+Proof. vm_compute. repeat split. Qed.
